@@ -505,7 +505,13 @@ class DatasetWorld(object):
         if kind == "one_label":
             bad = list(base)
             alt = [x for x in (V.gen_labels(rng, 6, _kind_of(base)) + ([98.5] if not isinstance(base[0], str) else ["zq"])) if x not in base]
-            bad[rng.randrange(len(bad))] = alt[0]
+            i = rng.randrange(len(bad))
+            if not isinstance(base[0], str) and rng.random() < 0.3:
+                # a label that differs only a little still disagrees
+                bad[i] = float(bad[i]) + rng.choice([1e-7, -1e-7, 1e-3]) * max(1.0, abs(float(bad[i])))
+                self.count("c13:reject_near_label")
+            else:
+                bad[i] = alt[0]
         elif kind == "order":
             bad = list(base)
             i = rng.randrange(len(bad) - 1)
@@ -583,6 +589,8 @@ class DatasetWorld(object):
                 st["skipna"] = rng.random() < 0.3
                 if rng.random() < 0.12:
                     st["axis"] = None           # every variable is reduced over all its dimensions
+                elif rng.random() < 0.12:
+                    st["direct"], st["fn"], st["keepattrs"] = True, rng.choice(["sum", "mean", "max", "min"]), rng.random() < 0.5
             elif what == "take_axis":
                 n = len(labs)
                 if n == 0:
@@ -632,6 +640,8 @@ class DatasetWorld(object):
             st["align"] = rng.random() < 0.4
             st["perturb"] = rng.random() < 0.5
             st["secondary_differs"] = rng.random() < 0.4
+        elif what == "neg":
+            st["sign"] = rng.choice(["neg", "pos"])
         elif what == "ds_op_ds":
             st["fn"] = rng.choice(["add", "sub", "mul"])
             st["drop_key"] = rng.random() < 0.3
